@@ -120,7 +120,12 @@ pub fn create_and_read_back(work: &Work, report: &mut BodyReport) {
             return;
         }
     };
-    let mut addresses: Vec<u32> = Vec::with_capacity(work.contents.len());
+    // (None: the insertion was refused with the injected input error and the application went on)
+    let mut addresses: Vec<Option<u32>> = Vec::with_capacity(work.contents.len());
+    // half of the works with a failing input belong to an application that skips an item whose
+    // insertion fails and goes on with the rest (the others give up at the first error): if the
+    // creator then says Ok at the end, everything it acknowledged must be there
+    let skip_failed = work.hard_err_call.is_some() && work.aux_seed % 2 == 0;
     enum Adder {
         Plain(jubako::creator::ContentPackCreator<jubako::creator::NamedFile>),
         Cached(jubako::creator::CachedContentAdder<jubako::creator::ContentPackCreator<jubako::creator::NamedFile>>),
@@ -145,7 +150,7 @@ pub fn create_and_read_back(work: &Work, report: &mut BodyReport) {
                 if a.pack_id != jubako::PackId::from(1) {
                     report.complaints.push(format!("content {i}: address in pack {:?}", a.pack_id));
                 }
-                addresses.push(a.content_id.into_u64() as u32);
+                addresses.push(Some(a.content_id.into_u64() as u32));
             }
             Err(e) => {
                 use std::sync::atomic::Ordering::Relaxed;
@@ -153,6 +158,11 @@ pub fn create_and_read_back(work: &Work, report: &mut BodyReport) {
                     // a hard input error was injected and is reported: legitimate
                     report.notes.insert("fault:input-hard-error".into(), stats.err.load(Relaxed));
                     report.notes.insert("hard_fault_reported_as_err".into(), 1);
+                    if skip_failed {
+                        *report.notes.entry("failed_insertion_skipped_application_goes_on".into()).or_insert(0) += 1;
+                        addresses.push(None);
+                        continue;
+                    }
                     return;
                 }
                 report.complaints.push(format!("add_content({i}) failed: {e}"));
@@ -241,7 +251,9 @@ pub fn create_and_read_back(work: &Work, report: &mut BodyReport) {
         expected_ids.push(next);
         next += 1;
     }
-    if addresses != expected_ids {
+    let injected = stats.err.load(Relaxed) > 0;
+    // (after an input error which ids the later insertions get is the creator's business)
+    if !injected && addresses != expected_ids.iter().map(|i| Some(*i)).collect::<Vec<_>>() {
         report.complaints.push(format!("returned content ids {addresses:?} differ from the expected {expected_ids:?}"));
     }
     let stored = next;
@@ -265,11 +277,11 @@ pub fn create_and_read_back(work: &Work, report: &mut BodyReport) {
         report.complaints.push("uuid of the pack differs from the PackData returned by finalize".into());
     }
     let count = pack.get_content_count().into_u64() as u32;
-    if count != stored {
+    if !injected && count != stored {
         report.complaints.push(format!("pack reports {count} contents, {stored} were stored"));
     }
     for (i, c) in work.contents.iter().enumerate() {
-        let id = addresses[i];
+        let Some(id) = addresses[i] else { continue };
         match pack.get_content(jubako::ContentIdx::from(id)) {
             Err(e) => report.complaints.push(format!("content {i} (id {id}, {} bytes, hint {:?}): get_content failed: {}", c.bytes.len(), c.hint, simcore::dump::err_class(&e))),
             Ok(None) => report.complaints.push(format!("content {i} (id {id}): no such content")),
@@ -304,6 +316,7 @@ pub fn create_and_read_back(work: &Work, report: &mut BodyReport) {
             }
         }
     }
+    let stored = if injected { count } else { stored };
     for beyond in [stored, stored + 1, stored + 4095] {
         match pack.get_content(jubako::ContentIdx::from(beyond)) {
             Ok(None) => {}
@@ -332,8 +345,8 @@ pub fn create_and_read_back(work: &Work, report: &mut BodyReport) {
         };
         (0..work.contents.len())
             .step_by(step)
-            .filter_map(|i| match pack.get_content(jubako::ContentIdx::from(addresses[i])) {
-                Ok(Some(r)) => Some((i, r)),
+            .filter_map(|i| match addresses[i].map(|id| pack.get_content(jubako::ContentIdx::from(id))) {
+                Some(Ok(Some(r))) => Some((i, r)),
                 _ => None, // already complained about above
             })
             .collect()
